@@ -247,7 +247,7 @@ fn alternates(cfg: &Config, trace: &[usize]) -> bool {
         }
         pcs[*t] += 1;
     }
-    last.values().any(|v| v.windows(3).any(|w| w[0] != w[1] && w[0] == w[2]) || v.windows(2).filter(|w| w[0] != w[1]).count() >= 2)
+    last.values().any(|v| v.windows(2).filter(|w| w[0] != w[1]).count() >= 2)
 }
 
 pub fn explore(cfg: &Config, seed: u64, dfs_budget: u64, random_schedules: u64) -> Explore {
